@@ -382,7 +382,18 @@ def run_check(pid, mod, tier, seed, replay):
         impl, err = exec_stream(pid, st, cases)
         if err:
             res.errors.append('%s: executor: %s' % (st.name, err))
-            # find the crashing case by bisection is left to per-process streams
+            # the executor died on some case of the batch (a panic that escapes, an abort): find it — one process per case over
+            # the first few hundred cases — so that the violation comes with the input that kills the real code
+            if not st.per_process:
+                env = None
+                if getattr(st, 'env', None):
+                    env = dict(os.environ); env.update(st.env)
+                probe = cases[:400]
+                outs, _ = run_per_process([bin_path(st.bin)], probe, timeout=60, env=env)
+                for c, o in zip(probe, outs or []):
+                    if o.startswith('CRASH') or o == 'TIMEOUT':
+                        res.spec_failures.append((st.name, c, o[:600], 'the executor (real code) dies on this case: ' + o[:200]))
+                        break
             continue
         # (an executor-level operation may stand for several operations of the model: `model_case` rewrites the case for the drivers)
         mcases = [st.model_case(c) for c in cases] if getattr(st, 'model_case', None) else cases
